@@ -101,7 +101,9 @@ def handleSqlOpt (c : Json) : Except String Json := do
     match toNearSql (cfgOfJson c) ops with
     | .error e => return errToJson e
     | .ok n =>
-      match semToSql ThetaSql.concrete (engineOfJson c) env (boolOpt c "use_with" true) (boolOpt c "cte_elim" false) n with
+      -- `supports_cte_elim` is True for the PostgreSQL dialect only (SQLiteModel leaves the default False)
+      match semToSql ThetaSql.concrete (engineOfJson c) env (boolOpt c "use_with" true)
+          (boolOpt c "cte_elim" false && dialectPg) n with
       | .ok t => return Json.mkObj [("ok", tableToJson t)]
       | .error e => return errToJson e
 
